@@ -25,7 +25,7 @@ LEVEL_TEXT = (
     "(truth tables computed from the ETags methods' branch structure), each gets the unquoted response ETag and enters "
     "the verdict with the right polarity; parse_etags files weak and strong tags under the constructor parameter of that "
     "name (read off its control flow, or - member loop in a generator helper, lists kept in a table indexed by the flag "
-    "or built by comprehensions - off its symbolic summary); (R11.2) precedence as a truth table: is_resource_modified is executed path by path with its conditions as "
+    "or built by comprehensions - off its symbolic summary, or - neither following its text - off its evaluation on the tag lists of R11.10); (R11.2) precedence as a truth table: is_resource_modified is executed path by path with its conditions as "
     "abstract booleans (ETag present, If-Range gate = not ignore_if_range / Range sent / If-Range carries a tag, "
     "If-None-Match / If-Match parsed non-empty, the three comparison results; every other condition, the date tests "
     "included, free) and the verdict as a value, so assignment, conditional set, conditional expression, flag local and "
@@ -61,13 +61,24 @@ LEVEL_TEXT = (
     "every string up to length 4 over {'-', '+', '0', '1'} that is not a range-spec `first-[last]` with last >= first or "
     "`-suffix` (doubled, trailing and lone dashes, signs, digits without a dash), also next to a well-formed spec, and "
     "exactly the denoted Range for those that are one (a finite family: longer specs, other characters, inner whitespace "
-    "and whether a zero suffix length is satisfiable are not decided). Decided on all paths of these functions; the rest of the byte arithmetic of "
-    "_RangeWrapper (skipping to start on non-seekable bodies, trimming the first and last chunk for each chunking) is not decided."
+    "and whether a zero suffix length is satisfiable are not decided); (R11.10) parse_etags as a whole function (the tag regex "
+    "as the re module reads it, the member loop, the ETags constructor), evaluated by the same Machine on every list of one or two "
+    "entity-tags (and some of three) out of strong / weak tags - one with a comma inside the quotes - separated by a comma with no, "
+    "one or two blanks or a tab on either side, and on '*': the predicates the verdict applies (contains_weak, contains, is_strong, "
+    "themselves evaluated) admit exactly the tags the list names, weak ones only under weak comparison, '*' every tag (a finite "
+    "family: unquoted or malformed members, empty list elements, blanks around the whole header, other tag alphabets and longer lists "
+    "are not decided); (R11.11) FileWrapper.seekable(), evaluated on stand-in wrapped files whose own seekable() answers False (with "
+    "and without seek / tell attributes, which every io.IOBase object has), answers false - _RangeWrapper trusts that answer when it "
+    "seeks to the start of the range instead of reading up to it (what it answers for files without a seekable attribute, or with a "
+    "true answer, is not constrained). Decided on all paths of these functions; the rest of the byte arithmetic of "
+    "_RangeWrapper (skipping to start on non-seekable bodies, trimming the first and last chunk for each chunking), and whether "
+    "_RangeWrapper / send_file consult seekable() at all, is not decided."
 )
 TRUSTED = [
     "CPython ast",
-    "the Machine of _c06_helpers (R11.9): its reading of Python statements and expressions over constants, builtin str / int / re semantics; nothing of werkzeug is imported or run",
+    "the Machine of _c06_helpers (R11.9, R11.10, R11.11): its reading of Python statements and expressions over constants, builtin str / int / re semantics; nothing of werkzeug is imported or run",
     "datetime semantics: replace(tzinfo=) relabels, astimezone() converts, aware datetimes compare by instant",
+    "abstract collection bases (collections.abc Collection / Container / Iterable / Sized) add no state and no __init__ to ETags (R11.10 instantiates it as the record its own __init__ fills)",
     "file objects: seek(x) positions the body at absolute offset x without reading, tell() returns the absolute position",
     "RFC 9110 13.1.1-13.1.5 / 14: weak comparison for If-None-Match, '*' admits any current representation, If-None-Match takes precedence over If-Modified-Since",
 ]
@@ -88,6 +99,19 @@ PASS_PARAMS = ["etag", "data", "last_modified", "ignore_if_range"]
 # ETags predicates as truth tables over (weak member, strong member, star)
 
 
+def _arm_names(e: ast.AST) -> set[str]:
+    """names a stored value is made of: of a conditional expression the arms, not the test that chooses between them
+    (the same names an if statement around two stores would leave out)"""
+    if isinstance(e, ast.IfExp):
+        return _arm_names(e.body) | _arm_names(e.orelse)
+    out: set[str] = set()
+    for ch in ast.iter_child_nodes(e):
+        out |= _arm_names(ch)
+    if isinstance(e, ast.Name):
+        out.add(e.id)
+    return out
+
+
 class ETagsModel:
     def __init__(self, ctx: Ctx):
         self.ctx = ctx
@@ -105,13 +129,17 @@ class ETagsModel:
         roles: dict[str, set[str]] = {}
         for s in walk_no_nested(init.node):
             if isinstance(s, ast.Assign) and len(s.targets) == 1 and astq.is_self_attr(s.targets[0]):
-                ps = astq.names_in(s.value) & {"strong_etags", "weak_etags", "star_tag"}
+                ps = _arm_names(s.value) & {"strong_etags", "weak_etags", "star_tag"}
                 roles.setdefault(s.targets[0].attr, set()).update(ps)
         for a, ps in roles.items():
             if len(ps) == 1:
                 self.attr_role[a] = {"strong_etags": "s", "weak_etags": "w", "star_tag": "x"}[next(iter(ps))]
+        self.unattributed: str | None = None
         if sorted(self.attr_role.values()) != ["s", "w", "x"]:
-            raise AnalysisError(f"ETags.__init__: cannot attribute the stored fields to strong/weak/star: {roles}")
+            # the sets are stored in another representation (one pair, a mapping, behind properties ...): the methods'
+            # branch structure cannot be read against the fields; the predicates are evaluated instead (`value`)
+            self.unattributed = f"ETags.__init__: cannot attribute the stored fields to strong/weak/star: {roles}"
+            self.attr_role = {}
         self._paths: dict[str, list[H.BoolPath]] = {}
 
     def _member(self, m: FuncInfo, coll: ast.AST) -> list[str] | None:
@@ -140,7 +168,47 @@ class ETagsModel:
             return ("call", atom.func.attr)
         raise AnalysisError(f"ETags.{m.name}: cannot interpret condition `{norm(atom)}`")
 
-    def value(self, name: str, w: bool, s: bool, x: bool, depth: int = 0) -> bool:
+    def value(self, name: str, w: bool, s: bool, x: bool) -> bool:
+        """truth value of ETags.<name>(tag) for a tag that is / is not among the weak tags, among the strong tags, with /
+        without '*': read off the method's branch structure; a method whose text that reading does not follow (a walrus,
+        a returned local, a loop, any(...)) is evaluated by the Machine on an instance its own __init__ built."""
+        try:
+            return self._value_paths(name, w, s, x)
+        except AnalysisError as e1:
+            try:
+                return self._value_evaluated(name, w, s, x)
+            except AnalysisError as e2:
+                raise AnalysisError(f"{e1}; evaluated: {e2}")
+
+    def _value_evaluated(self, name: str, w: bool, s: bool, x: bool) -> bool:
+        o, meth = self.repo.lookup(self.cls, name)
+        if not isinstance(meth, FuncInfo):
+            raise AnalysisError(f"ETags.{name} is not a method of the package")
+        self.ctx.saw(meth)
+        if getattr(self, "_machine", None) is None:
+            self._machine = _EvalMachine(self.repo, S6.TableFolder(self.repo))
+        m = self._machine
+        tag = "t"
+        try:
+            obj = m.run(self.cls, [], {"strong_etags": [tag] if s else [], "weak_etags": [tag] if w else [], "star_tag": False})
+            if x:
+                star = [a for a, r in self.attr_role.items() if r == "x"] or [a for a in ("star_tag",) if a in obj.attrs]
+                if not star:
+                    raise AnalysisError("ETags.__init__ does not store the star flag under a name of its own")
+                for a in star:
+                    obj.attrs[a] = True
+            got = m.method(obj, name, [tag])
+        except S6.ProgramRaise as r:
+            raise AnalysisError(f"ETags.{name}: evaluation with weak={w} strong={s} star={x} raises {r.kind}")
+        except S6.OutOfSteps:
+            raise AnalysisError(f"ETags.{name}: evaluation does not finish")
+        if isinstance(got, S6._MACHINE_OBJECTS):
+            raise AnalysisError(f"ETags.{name}: does not return a plain truth value")
+        return bool(got)
+
+    def _value_paths(self, name: str, w: bool, s: bool, x: bool, depth: int = 0) -> bool:
+        if self.unattributed:
+            raise AnalysisError(self.unattributed)
         if depth > 6:
             raise AnalysisError(f"ETags.{name}: recursion in predicate")
         o, m = self.repo.lookup(self.cls, name)
@@ -154,7 +222,7 @@ class ETagsModel:
             ok = True
             for atom, label in bp.literals:
                 a = self._atom(m, atom)
-                v = any(env[r] for r in a) if isinstance(a, list) else self.value(a[1], w, s, x, depth + 1)
+                v = any(env[r] for r in a) if isinstance(a, list) else self._value_paths(a[1], w, s, x, depth + 1)
                 if v != (label == "T"):
                     ok = False
                     break
@@ -446,7 +514,9 @@ def _parse_etags_wiring(ctx: Ctx, model: ETagsModel) -> None:
     carried from one member to the next), and - when the lists, the flag or the member loop are spelled in a way the
     path walk does not follow (member loop in a generator helper, lists kept in a table indexed by the flag, lists
     built by comprehensions, ...) - the symbolic summary of the function (helpers inlined, a generator helper read as
-    the loop that produces the items, `table[bool(flag)]` read as a selection by the flag)."""
+    the loop that produces the items, `table[bool(flag)]` read as a selection by the flag); and when neither reading
+    follows the text (groups read by name, a bound method of the regex held in a local, ...), the function is evaluated
+    on the entity-tag lists of R11.10 and the same obligations are read off the results."""
     first = _Deferred(ctx)
     try:
         _parse_etags_wiring_paths(first, model)  # type: ignore[arg-type]
@@ -455,7 +525,13 @@ def _parse_etags_wiring(ctx: Ctx, model: ETagsModel) -> None:
         try:
             _parse_etags_wiring_summary(second, model)  # type: ignore[arg-type]
         except AnalysisError as e2:
-            raise AnalysisError(f"{e1}; on the symbolic summary: {e2}")
+            third = _Deferred(ctx)
+            try:
+                _parse_etags_wiring_evaluated(third, model)  # type: ignore[arg-type]
+            except AnalysisError as e3:
+                raise AnalysisError(f"{e1}; on the symbolic summary: {e2}; evaluated on tag lists: {e3}")
+            third.flush()
+            return
         second.flush()
         return
     first.flush()
@@ -505,6 +581,28 @@ def _star_compared(conds) -> list:
         if a[0] == "cmp" and a[1] == "in" and a[2] == star and S6.coll_items(a[3]) is not None:
             out.extend(it_ for _, it_ in S6.coll_items(a[3]))
     return out
+
+
+def _opens_with_group_1(rx: RegexConst) -> bool:
+    """the parsed regex (layout and comments of re.VERBOSE gone) begins with capturing group 1, optional or not"""
+    try:
+        seq = list(rx.parsed())
+    except re.error as e:
+        raise AnalysisError(f"tag regex does not parse: {e}")
+    while seq:
+        op, av = seq[0]
+        name = str(op)
+        if name in ("MAX_REPEAT", "MIN_REPEAT", "POSSESSIVE_REPEAT"):
+            seq = list(av[2])
+        elif name == "SUBPATTERN":
+            if av[0] is not None:
+                return av[0] == 1
+            seq = list(av[3])
+        elif name == "ATOMIC_GROUP":
+            seq = list(av)
+        else:
+            return False
+    return False
 
 
 def _parse_etags_wiring_summary(ctx: Ctx, model: ETagsModel) -> None:
@@ -590,7 +688,7 @@ def _parse_etags_wiring_summary(ctx: Ctx, model: ETagsModel) -> None:
     if not isinstance(rx, RegexConst):
         raise AnalysisError(f"parse_etags: {fq} does not fold to a regex")
     cls0 = classes_in(rx)
-    marker = bool(cls0) and cls0[0] == {ord("W"), ord("w")} and group_width(rx, 1) == (2, 2) and str(rx.pattern).startswith("(")
+    marker = bool(cls0) and cls0[0] == {ord("W"), ord("w")} and group_width(rx, 1) == (2, 2) and _opens_with_group_1(rx)
     ctx.ob(R, "parse_etags: the weakness flag is group 1 of the tag regex, the W/ marker", marker, f"group 1 of {nm} = {rx.pattern!r}: first class {sorted(map(chr, cls0[0])) if cls0 else None}, group 1 width {group_width(rx, 1)}", pe, pe.node, "parse_etags weak flag group")
 
 
@@ -851,7 +949,7 @@ def _weak_flag(ctx: Ctx, PA: FA):
     if not isinstance(rx, RegexConst):
         raise AnalysisError(f"parse_etags: {fq} does not fold to a regex")
     cls0 = classes_in(rx)
-    marker = bool(cls0) and cls0[0] == {ord("W"), ord("w")} and group_width(rx, 1) == (2, 2) and str(rx.pattern).startswith("(")
+    marker = bool(cls0) and cls0[0] == {ord("W"), ord("w")} and group_width(rx, 1) == (2, 2) and _opens_with_group_1(rx)
     ctx.ob("R11.1", "parse_etags: the weakness flag is group 1 of the tag regex, the W/ marker", marker, f"`{d.name}` <- {nm} = {rx.pattern!r}: first class {sorted(map(chr, cls0[0])) if cls0 else None}, group 1 width {group_width(rx, 1)}", pe, d.target if d.target is not None else d.stmt, "parse_etags weak flag group")
     return d.name, d
 
@@ -2773,6 +2871,244 @@ def rule_9(ctx: Ctx) -> None:
     ctx.floor(R, "Range headers evaluated", n, 400)
 
 
+# ---------------------------------------------------------------------
+# R11.10 / R11.11 whole-function evaluation of parse_etags and FileWrapper.seekable
+
+
+_ABSTRACT_BASES = frozenset(
+    f"{m}.{n}" for m in ("typing", "collections.abc", "_collections_abc") for n in ("Collection", "Container", "Iterable", "Sized", "Hashable")
+)
+
+
+class _StandInFile:
+    """a wrapped file as FileWrapper sees it: nothing but the attributes given (name -> result of calling it)"""
+
+    def __init__(self, what: str, **methods: t.Any):
+        self._what = what
+        for k, v in methods.items():
+            setattr(self, k, (lambda r: lambda *a, **kw: r)(v))
+
+    def __repr__(self) -> str:
+        return f"<file: {self._what}>"
+
+
+class _SentinelClassInfo:
+    """stands for `object` as the class of a module-level `object()` sentinel"""
+
+    fq = "builtins.object"
+    name = qualname = "object"
+
+
+_SentinelClass = _SentinelClassInfo()
+
+
+class _EvalMachine(S6.Machine):
+    """the Machine of _c06_helpers plus (a) a class of the package whose only foreign bases are abstract collection
+    interfaces (no state, no __init__ of their own) is instantiated as the record its own __init__ fills, (b) a
+    stand-in file object answers attribute reads from its own attributes."""
+
+    def instantiate(self, ci: t.Any, args: list, kwargs: dict) -> t.Any:
+        mro = self.repo.mro(ci)
+        foreign = [k.fq for k in mro if not hasattr(k, "node") and k.fq not in ("builtins.object", "typing.Generic")]
+        if not foreign or not all(fq in _ABSTRACT_BASES for fq in foreign):
+            return super().instantiate(ci, args, kwargs)
+        if ci.node.decorator_list or isinstance(self.class_member(ci, "__new__")[1], FuncInfo):
+            raise S6.NotModelled(f"class {ci.fq}: decorated or defines __new__")
+        obj = S6.Obj(ci)
+        _, init = self.class_member(ci, "__init__")
+        if isinstance(init, FuncInfo):
+            self.call_fn(init, [obj] + args, kwargs)
+        elif args or kwargs:
+            self.raise_(TypeError, f"{ci.name}() takes no arguments")
+        return obj
+
+    def value_of_fq(self, fq: str) -> t.Any:
+        try:
+            return super().value_of_fq(fq)
+        except S6.NotModelled:
+            # a module-level sentinel: bound once to an argument-less instance of a class of the package (`_missing =
+            # _Missing()`) or to `object()`; one instance per evaluation, so identity tests against it mean what they say
+            mn, _, nm = fq.rpartition(".")
+            mod = self.repo.modules.get(mn)
+            vals = mod.assigns.get(nm) if mod is not None else None
+            if not vals or len(vals) != 1 or not (isinstance(vals[0], ast.Call) and not vals[0].args and not vals[0].keywords):
+                raise
+            d = dotted(vals[0].func)
+            target = self.repo.resolve(mod, d, {}) if d is not None else None
+            ci = self.repo.try_cls(target) if target else None
+            if ci is not None:
+                v = self.instantiate(ci, [], {})
+            elif target == "builtins.object":
+                v = S6.Obj(_SentinelClass)
+            else:
+                raise
+            self._const[fq] = v
+            return v
+
+    def getattr(self, v: t.Any, name: str) -> t.Any:
+        if isinstance(v, _StandInFile):
+            if name.startswith("_") or name not in vars(v):
+                self.raise_(AttributeError, f"file object has no attribute {name!r}")
+            return S6.Native(v, name)
+        return super().getattr(v, name)
+
+
+_TAG_SEPARATORS = [",", ", ", " ,", " , ", "\t,\t", ",  ", "  ,"]
+_TAG_UNIVERSE = ["a", "b1", "c,d", "zz"]  # "zz" is never sent
+
+
+def _tag_lists() -> list[tuple[str, set[str], set[str], list[str]]]:
+    """(header, strong tags, weak tags, separators used) for RFC 9110 8.8.3 / 5.6.1 lists: entity-tags (opaque-tag, W/ opaque-tag; a
+    comma is an etagc) separated by a comma with optional blanks or tabs on either side"""
+    members = [('"a"', "a", False), ('W/"a"', "a", True), ('"b1"', "b1", False), ('W/"b1"', "b1", True), ('"c,d"', "c,d", False)]
+    out = []
+
+    def add(ms: list, seps: list[str]) -> None:
+        h = ms[0][0] + "".join(sp + m_[0] for sp, m_ in zip(seps, ms[1:]))
+        out.append((h, {m_[1] for m_ in ms if not m_[2]}, {m_[1] for m_ in ms if m_[2]}, seps))
+
+    for m1 in members:
+        add([m1], [])
+    for m1, m2, sp in itertools.product(members, members, _TAG_SEPARATORS):
+        add([m1, m2], [sp])
+    for s1, s2 in itertools.product(_TAG_SEPARATORS, repeat=2):
+        add([members[0], members[3], members[4]], [s1, s2])
+    return out
+
+
+_TAG_PREDICATES = [("contains_weak", lambda u, st, wk: u in st or u in wk), ("contains", lambda u, st, wk: u in st), ("is_strong", lambda u, st, wk: u in st)]
+
+
+class _TagAnswer(t.NamedTuple):
+    header: str
+    strong: set
+    weak: set
+    seps: list
+    err: str  # parse_etags(header) did not give an ETags: what it did instead
+    got: dict  # (predicate, tag) -> bool | text of what happened
+
+    def wrong(self) -> str | None:
+        if self.err:
+            return f"parse_etags({self.header!r}) {self.err}"
+        for u in _TAG_UNIVERSE:
+            for name, want in _TAG_PREDICATES:
+                if self.got[name, u] != want(u, self.strong, self.weak):
+                    return f"parse_etags({self.header!r}).{name}({u!r}) is {self.got[name, u]}, expected {want(u, self.strong, self.weak)} (strong {sorted(self.strong)}, weak {sorted(self.weak)})"
+        return None
+
+
+def _tag_list_answers(model: ETagsModel) -> tuple[list[_TagAnswer], _TagAnswer]:
+    """parse_etags evaluated by the Machine on the family of _tag_lists and on '*', each result asked through the
+    ETags predicates (evaluated as well) for every tag of the universe.  -> (answers for the lists, answer for '*')"""
+    cached = getattr(model, "_tag_answers", None)
+    if cached is not None:
+        return cached
+    repo = model.repo
+    pe = repo.func("werkzeug.http.parse_etags")
+    m = _EvalMachine(repo, S6.TableFolder(repo))
+    for name, _ in _TAG_PREDICATES:
+        if not isinstance(repo.lookup(model.cls, name)[1], FuncInfo):
+            raise AnchorMissing(f"ETags.{name} missing")
+
+    def ask(obj, name: str, u: str):
+        try:
+            return bool(m.method(obj, name, [u]))
+        except S6.ProgramRaise as r:
+            return f"raises {r.kind}"
+        except S6.OutOfSteps:
+            return "does not finish"
+
+    def answer(h: str, st: set, wk: set, seps: list) -> _TagAnswer:
+        try:
+            obj = m.run(pe, [h])
+        except S6.ProgramRaise as r:
+            return _TagAnswer(h, st, wk, seps, f"raises {r.kind}", {})
+        except S6.OutOfSteps:
+            return _TagAnswer(h, st, wk, seps, "does not finish", {})
+        if not (isinstance(obj, S6.Obj) and obj.ci.fq == model.cls.fq):
+            return _TagAnswer(h, st, wk, seps, f"returns {S6.snapshot(obj)!r}, not an ETags", {})
+        return _TagAnswer(h, st, wk, seps, "", {(name, u): ask(obj, name, u) for u in _TAG_UNIVERSE for name, _ in _TAG_PREDICATES})
+
+    out = [answer(*x) for x in _tag_lists()], answer("*", set(), set(), [])
+    model._tag_answers = out  # type: ignore[attr-defined]
+    return out
+
+
+def _star_admits_all(star: _TagAnswer) -> bool:
+    return not star.err and all(star.got[name, u] is True for u in _TAG_UNIVERSE for name in ("contains_weak", "contains"))
+
+
+def rule_10(ctx: Ctx, model: ETagsModel) -> None:
+    """parse_etags as a whole function (the tag regex, the member loop, the ETags constructor), evaluated by the
+    Machine on a finite family of well-formed entity-tag lists; the result is read through the ETags predicates the
+    verdict uses (R11.1 decides which one is applied to which header)."""
+    R = "R11.10"
+    pe = ctx.repo.func("werkzeug.http.parse_etags")
+    ctx.saw(pe)
+    answers, star = _tag_list_answers(model)
+    by_sep: dict[str, list[_TagAnswer]] = {}
+    for a in answers:
+        key = "blank before a comma" if any(sp[0] != "," for sp in a.seps) else "blank after a comma" if any(sp[-1] != "," for sp in a.seps) else "bare commas or a single tag"
+        by_sep.setdefault(key, []).append(a)
+    for key in sorted(by_sep):
+        bad = next((w for w in (a.wrong() for a in by_sep[key]) if w is not None), None)
+        ctx.ob(R, f"a well-formed entity-tag list ({key}) is read as the tags it lists", bad is None, f"{len(by_sep[key])} headers of 1-3 strong / weak tags, separators {_TAG_SEPARATORS!r}; {('e.g. ' + bad) if bad else 'every ETags predicate answers as the list says'}", pe, pe.node, f"tag list, {key}")
+    ok = _star_admits_all(star)
+    ctx.ob(R, "'*' is read as the tag set that admits every tag", ok, f"parse_etags('*') {star.err or ('admits ' + ('every' if ok else 'not every') + ' tag of ' + repr(_TAG_UNIVERSE))}", pe, pe.node, "tag list, star")
+    ctx.floor(R, "entity-tag headers evaluated", len(answers) + 1, 200)
+
+
+def _parse_etags_wiring_evaluated(ctx: Ctx, model: ETagsModel) -> None:
+    """third reading of the wiring obligations of R11.1, for a parse_etags whose text neither the path walk nor the
+    symbolic summary follows: the function is evaluated on the tag lists of R11.10 and the obligations are read off
+    the results - a tag sent with W/ is admitted by weak comparison only, one sent without by strong comparison, and
+    only '*' gives the set that admits a tag nobody sent."""
+    R = "R11.1"
+    pe = ctx.repo.func("werkzeug.http.parse_etags")
+    answers, star = _tag_list_answers(model)
+    broken = next((a for a in answers if a.err), None)
+    if broken is not None:
+        raise AnalysisError(f"parse_etags({broken.header!r}) {broken.err}")
+
+    def first(pred) -> str | None:
+        return next((f"parse_etags({a.header!r}): {name}({u!r}) is {a.got[name, u]}" for a in answers for u in _TAG_UNIVERSE for name, _ in _TAG_PREDICATES if pred(a, name, u)), None)
+
+    never = _TAG_UNIVERSE[-1]
+    bad = first(lambda a, name, u: u == never and a.got[name, u] is not False)
+    ctx.ob(R, "parse_etags: star_tag is set only for a '*' member", bad is None and _star_admits_all(star), f"evaluated on {len(answers)} tag lists and '*': " + (bad or star.err or "only '*' admits a tag that was not sent"), pe, pe.node, "parse_etags star")
+    bad = first(lambda a, name, u: u in a.weak and u not in a.strong and a.got[name, u] is not (name == "contains_weak"))
+    ctx.ob(R, "parse_etags: the list passed as weak_etags collects the weak tags", bad is None, f"evaluated on {len(answers)} tag lists: " + (bad or "a tag sent with W/ (and not also without) is admitted by contains_weak only"), pe, pe.node, "parse_etags weak_etags append")
+    bad = first(lambda a, name, u: u in a.strong and a.got[name, u] is not True)
+    ctx.ob(R, "parse_etags: the list passed as strong_etags collects the strong tags", bad is None, f"evaluated on {len(answers)} tag lists: " + (bad or "a tag sent without W/ is admitted by contains, contains_weak and is_strong"), pe, pe.node, "parse_etags strong_etags append")
+    ctx.floor(R, "parse_etags list wiring", 3, 3)
+
+
+def rule_11(ctx: Ctx) -> None:
+    """FileWrapper.seekable, evaluated by the Machine on stand-in files: _RangeWrapper trusts the answer to seek() to
+    the start of the range instead of reading up to it, so a wrapped file that says it is not seekable must not be
+    reported seekable, whatever other attributes it has (every io.IOBase object has seek and tell)."""
+    R = "R11.11"
+    repo = ctx.repo
+    fw = H.class_of(repo, "werkzeug.wsgi.FileWrapper")
+    sk = _method(ctx, fw, "seekable")
+    m = _EvalMachine(repo, S6.TableFolder(repo))
+    files = [
+        _StandInFile("seekable() is False; has read, seek, tell, close (a pipe, a socket file, a raw stream)", seekable=False, read=b"", seek=0, tell=0, close=None),
+        _StandInFile("seekable() is False; has read and seek", seekable=False, read=b"", seek=0),
+        _StandInFile("seekable() is False; has read only", seekable=False, read=b""),
+    ]
+    n = 0
+    for f in files:
+        try:
+            w = m.run(fw, [f])
+            got = m.outcome(lambda: m.method(w, "seekable"))
+        except S6.ProgramRaise as r:
+            got = ("<raises>", r.kind)
+        n += 1
+        ctx.ob(R, "a wrapped file that answers seekable() with False is not reported seekable", not isinstance(got, tuple) and not got, f"FileWrapper({f!r}).seekable() gives {got!r}", sk, sk.node, f"FileWrapper.seekable: {f._what.split(';')[1].strip()}")
+    ctx.floor(R, "stand-in files evaluated", n, 3)
+
+
 RULES = {
     "R11.1": "each validator header reaches its own parameter; the ETags predicate applied to If-None-Match is weak|strong|star, to If-Match admits strong and '*', to the If-Range tag admits strong - each on the unquoted response ETag and entering the verdict with the right polarity; parse_etags files weak / strong / star members under the constructor parameter of that name",
     "R11.2": "truth table of sansio is_resource_modified (its CFG executed with every condition as an abstract boolean, the verdict carried as a value per path): whenever the response has an ETag and an ETag validator is evaluated - the If-Range tag when If-Range is in force, else If-Match, else If-None-Match (RFC 9110 13.2.2) - the answer is that comparison alone: 'not modified' iff the If-Range tag / If-None-Match matches, 'modified' iff If-Match admits; no date verdict or earlier verdict survives, whatever the other conditions",
@@ -2782,6 +3118,8 @@ RULES = {
     "R11.6": "each None from parse_range_header, range_for_length, to_content_range_header leads only to RequestedRangeNotSatisfiable and the value is used only after that check; send_file closes its file and re-raises on that path",
     "R11.7": "every non-None (start, stop) returned by Range.range_for_length is dominated by branch facts 0 <= start, start < stop, stop <= length on the returned values (inline or through a predicate whose true paths are enumerated) and by the bytes-unit, known-length and single-range tests; is_byte_range_valid for non-None arguments implies 0 <= start < stop and start < length",
     "R11.8": "_RangeWrapper: the attribute compared with the absolute end (start_byte + byte_range) is re-based to the body's absolute position (tell(), the seek result or the seek target) on every path from a seek of the body to the method's return",
+    "R11.10": "parse_etags, evaluated as a whole function (tag regex, member loop, ETags constructor) on every list of one or two tags (and some of three) out of strong / weak entity-tags separated by a comma with optional blanks or tabs on either side, and on '*': the ETags predicates the verdict uses (contains_weak, contains, is_strong) admit exactly the tags the list names, weak ones only under weak comparison; '*' admits every tag",
+    "R11.11": "FileWrapper.seekable(), evaluated on stand-in files whose own seekable() answers False (with and without seek / tell attributes): the answer is false, so _RangeWrapper reads up to the start of the range instead of seeking a body that cannot seek",
     "R11.9": "parse_range_header, evaluated as a whole function on every string up to length 4 over {'-', '+', '0', '1'} as the single range-spec of a bytes header (and on the malformed ones next to a well-formed spec): returns None for everything that is not `first-[last]` with last >= first or `-suffix` (so R11.6 turns it into 416), and exactly Range('bytes', [(first, last + 1 | None)]) / [(-suffix, None)] for what is",
 }
 
@@ -2811,3 +3149,5 @@ def run(ctx: Ctx) -> None:
     rule_7(ctx)
     rule_8(ctx)
     rule_9(ctx)
+    rule_10(ctx, model)
+    rule_11(ctx)
